@@ -398,6 +398,24 @@ func (req *SrvReq) Respond() {
 		return
 	}
 
+	/* finish the request and queue its reply before the request is unlinked: a
+	   Tflush that arrives meanwhile still finds it, so its Rflush is sent after the reply */
+	verifPoint("respond.R3", req, 0, 0)
+	if rop, ok := (req.Conn.Srv.ops).(SrvReqProcessOps); ok {
+		rop.SrvReqRespond(req)
+	} else {
+		req.PostProcess()
+	}
+
+	if (status & reqFlush) == 0 {
+		select {
+		case conn.reqout <- req:
+		case <-conn.done:
+			/* the connection is closed: nobody is left to send the reply */
+		}
+	}
+	verifPoint("respond.R4", req, uint32(status), 0)
+
 	/* remove the request and all requests flushing it */
 	conn.Lock()
 	nextreq := req.prev
@@ -424,22 +442,6 @@ func (req *SrvReq) Respond() {
 	}
 	verifPoint("respond.R2", req, 0, 0)
 	conn.Unlock()
-
-	verifPoint("respond.R3", req, 0, 0)
-	if rop, ok := (req.Conn.Srv.ops).(SrvReqProcessOps); ok {
-		rop.SrvReqRespond(req)
-	} else {
-		req.PostProcess()
-	}
-
-	if (status & reqFlush) == 0 {
-		select {
-		case conn.reqout <- req:
-		case <-conn.done:
-			/* the connection is closed: nobody is left to send the reply */
-		}
-	}
-	verifPoint("respond.R4", req, uint32(status), 0)
 
 	// process the next request with the same tag (if available)
 	if nextreq != nil {
